@@ -1,6 +1,7 @@
 package server
 
 import (
+	"strings"
 	"os"
 
 	"github.com/tidwall/redcon"
@@ -57,25 +58,41 @@ func VH_C03_framing_many() {
 // VH_C03_restart: after any two acknowledged commands from the command table (on top of a fixed dataset with
 // points, strings, fields, a deadline, a JSON document and a channel), a restart on the log gives exactly the
 // live dataset. Real handleInputCommand / writeAOF / flushAOF, real openAppendFile / loadAOF / handlers.
-//verif:cfg use=dirmodel b_program=2_commands_from_the_gate_table(43x43) ignorego=1 maxsteps=40000000
+//verif:cfg use=dirmodel b_program=2_commands_from_the_gate_table_on_the_full_dataset|1_command_on_a_server_with_hooks_and_channels_only|1_command_on_an_empty_server ignorego=1 maxsteps=40000000
 func VH_C03_restart() {
 	s, _ := vhShrinkServer()
 	s.luascripts = s.newScriptMap() // the table contains script commands
 	s.luapool = s.newPool()
-	vhWriteCmd(s, "SET", "fleet", "truck1", "FIELD", "speed", "90", "POINT", "33", "-115")
-	vhWriteCmd(s, "SET", "fleet", "truck2", "STRING", "hello")
-	vhWriteCmd(s, "SET", "fleet", "truck4", "EX", "100", "POINT", "3", "4")
-	vhWriteCmd(s, "JSET", "user", "u1", "name", "Tom")
-	vhWriteCmd(s, "SETCHAN", "ch1", "NEARBY", "fleet", "FENCE", "POINT", "33", "-115", "1000")
 	table := vhCommandTable()
-	c1 := table[vchoose(len(table))]
-	c2 := table[vchoose(len(table))]
-	vhRunCmd(s, c1.args)
-	vhRunCmd(s, c2.args)
+	var c1, c2 vhCmd
+	switch vchoose(3) {
+	case 0:
+		vhWriteCmd(s, "SET", "fleet", "truck1", "FIELD", "speed", "90", "POINT", "33", "-115")
+		vhWriteCmd(s, "SET", "fleet", "truck2", "STRING", "hello")
+		vhWriteCmd(s, "SET", "fleet", "truck4", "EX", "100", "POINT", "3", "4")
+		vhWriteCmd(s, "JSET", "user", "u1", "name", "Tom")
+		vhWriteCmd(s, "SETCHAN", "ch1", "NEARBY", "fleet", "FENCE", "POINT", "33", "-115", "1000")
+		c1 = table[vchoose(len(table))]
+		c2 = table[vchoose(len(table))]
+		vhRunCmd(s, c1.args)
+		vhRunCmd(s, c2.args)
+	case 1:
+		// hooks and channels but not a single collection
+		vhWriteCmd(s, "SETCHAN", "ch1", "META", "m", "1", "EX", "3600.5", "NEARBY", "fleet", "FENCE", "POINT", "33", "-115", "1000")
+		vhWriteCmd(s, "SETHOOK", "hk", "http://h/", "META", "owner", "me", "WITHIN", "fleet", "FENCE", "BOUNDS", "0", "0", "1", "1")
+		c1 = table[vchoose(len(table))]
+		vhRunCmd(s, c1.args)
+		vreach("hooks-only")
+	default:
+		// an empty server
+		c1 = table[vchoose(len(table))]
+		vhRunCmd(s, c1.args)
+		vreach("empty-start")
+	}
 	s.flushAOF(false)
 	live := vhSnapshot(s)
 	rec, err := vhRestartOn(s.opts.AppendFileName)
-	vobs("program", c1.args[0], c2.args[0], len(live))
+	vobs("program", strings.Join(c1.args, " "), strings.Join(c2.args, " "), len(live))
 	vassert("C03.restart_loads", err == nil)
 	vassert("C03.restart_equals_acknowledged_state", rec == live)
 	vhCleanupShrink()
